@@ -1,5 +1,6 @@
 import Sourmash.Lemmas.SetOpsMoreB
 import Sourmash.Lemmas.SetOpsSigRun
+import Sourmash.Lemmas.SetOpsCache
 /-! Property C03 — sketch operations mirror set operations on the underlying data.
 
 Property theorems only (helper lemmas: `Lemmas/SetOps*.lean`).  They are about the code-shaped model
@@ -498,5 +499,28 @@ theorem sig_add_feed_err (addHash : σ → Nat → σ) (s : σ) (hs : List Nat) 
     · simp [feed, h0, ih]
 
 end SigAdd
+
+/-! ### sketches handed over ready-made: the tree type's `current_max` cache
+
+Every theorem above reads `KmerMinHashBTree::add_hash_with_abundance` as `Sk.addT`, which takes the
+largest stored hash where the code reads the cached field `current_max`.  `new` + insertions, `merge`,
+`Deserialize`, `From<KmerMinHash>`, `clear` and `remove_hash` of the cached value all leave the field
+exact; the public builder does not (it defaults to 0 when the hashes come in through `.mins(..)`, and
+`Clone` copies it).  `Sk.addTc` is the same code with the field as an explicit argument. -/
+
+/-- **T-cache_exact**: with an exact cache the code is `Sk.addT` — the theorems of this file apply to
+every sketch whose `current_max` is its largest hash. -/
+theorem tree_add_cache_exact (s : Sk) (h a : Nat) : (s.addTc s.curMax h a).1 = s.addT h a :=
+  addTc_fst s h a
+
+/-- **T-cache_stale** (the defect, stated for every sketch): a full num sketch of the tree type whose
+cache is 0 ignores every later non-zero hash — also the ones below its largest hash, which the
+bottom-`num` of the union must contain (findings/C03.json, corpus/C03/builder-stale-max.ops). -/
+theorem tree_add_stale_cache_refuses (s : Sk) (h a : Nat) (hm : s.maxHash = 0)
+    (hfull : s.mins.length = s.num) (hne : s.mins ≠ []) (h0 : h ≠ 0) : s.addTc 0 h a = (s, 0) :=
+  addTc_stale_full s h a hm hfull hne h0
+example : exN.maxHash = 0 ∧ exN.mins.length = exN.num ∧ exN.mins ≠ [] ∧ (2 : Nat) ≠ 0 := by decide
+/-- … while the sketch with the exact cache takes the hash and evicts its largest one. -/
+example : (exN.addTc exN.curMax 2 1).1.mins = [1, 2, 5] ∧ (exN.addTc 0 2 1).1.mins = [1, 5, 9] := by decide
 
 end Sourmash.C03
